@@ -285,6 +285,10 @@ Section Section::createSection(const std::string &name, const std::string &type)
 }
 
 Property Section::createProperty(const std::string &name, const DataType &dtype) {
+    // only the types a Variant can hold are value types of a property
+    if (dtype == DataType::Nothing || !Variant::supports_type(dtype)) {
+        throw std::invalid_argument("Section::createProperty: unsupported value type!");
+    }
     util::checkEntityName(name);
     if (backend()->hasProperty(name)) {
         throw DuplicateName("hasProperty");
